@@ -647,6 +647,60 @@ class G:
         self.dump(sc, "log")
         return self.finish(sc, "v%d_mixed" % ver)
 
+    def v1_tree_energy(self):
+        """exact tree-traversal energy: larger trees with deep shared 4-bit prefixes (state thawed from a persistent
+        tree: nothing expanded), partial expansion by lookups, iteration (complete and partial), prefix deletion,
+        inserts that split stems and deletes that collapse nodes in between"""
+        self.begin(0)
+        self.stream, self.valid = "valid", True
+        sc = self.base(1, "recv", pages=1)
+        r = self.r
+        alpha = [0x00, 0x01, 0x10, 0x11, 0x1f, 0xf0]
+        stem = bytes(r.choice(alpha) for _ in range(r.randrange(0, 3)))
+        keys = set()
+        for _ in range(r.randrange(3, 16)):
+            keys.add(stem + bytes(r.choice(alpha) for _ in range(r.randrange(0, 6))))
+        keys = sorted(keys)
+        sc["state0"] = [(k, pattern(self.pick([0, 1, 8]), 31, i)) for i, k in enumerate(keys)]
+        mat = list(keys) + [stem + bytes(r.choice(alpha) for _ in range(r.randrange(0, 5))) for _ in range(4)]
+        r.shuffle(mat)
+        blob, pos = b"", []
+        for k in mat:
+            if len(blob) + len(k) <= 190:
+                pos.append((DATA + 64 + len(blob), len(k)))
+                blob += k
+        sc["data"].append([DATA + 64, blob])
+
+        def anykey():
+            return self.pick(pos)
+
+        def prefix():
+            p, L = self.pick(pos)
+            return (p, r.randrange(0, L + 1)) if self.chance(0.8) else (p, L)
+        ih = []
+        for _ in range(r.randrange(8, 36)):
+            op = self.pick(["lookup", "lookup", "iter", "next", "next", "next", "next", "dprefix", "create", "delete", "idel"])
+            if op == "lookup":
+                self.call(sc, "state_lookup_entry", *(anykey() if self.chance(0.7) else prefix()))
+            elif op == "iter":
+                ih.append(self.call(sc, "state_iterate_prefix", *prefix()))
+            elif op == "next" and ih:
+                j = self.pick(ih)
+                for _ in range(self.pick([1, 1, 2, 5, 20])):
+                    if len(sc["calls"]) < 110:
+                        self.call(sc, "state_iterator_next", ("s", j))
+            elif op == "dprefix":
+                self.call(sc, "state_delete_prefix", *prefix())
+            elif op == "create":
+                self.call(sc, "state_create_entry", *anykey())
+            elif op == "delete":
+                self.call(sc, "state_delete_entry", *anykey())
+            elif op == "idel" and ih:
+                self.call(sc, "state_iterator_delete", ("s", self.pick(ih)))
+        self.call(sc, "state_delete_prefix", DATA + 64, 0)      # whatever is left (locked: 0)
+        self.dump(sc, "log")
+        return self.finish(sc, "v1_tree_energy", 0)
+
     def v1_iter_exhaust(self):
         """iterators driven past exhaustion: the key reported afterwards, its size/read/delete cost"""
         self.begin(0)
@@ -877,7 +931,8 @@ class G:
                 (lambda: self.params(1), 8), (self.v0_actions, 10), (lambda: self.ctx(0), 5), (lambda: self.ctx(1), 5),
                 (self.v1_state, 18), (self.v1_rv, 7), (self.v1_invoke, 16), (self.v1_crypto, 8),
                 (lambda: self.mixed(0), 5), (lambda: self.mixed(1), 7), (self.v1_bigentry, 1), (self.v0_oversized_state, 0.3),
-                (self.v1_iter_exhaust, 5), (self.v1_too_many_iterators, 2), (self.v1_reenter, 9), (self.v1_stale_handles, 7)]
+                (self.v1_iter_exhaust, 5), (self.v1_too_many_iterators, 2), (self.v1_reenter, 9), (self.v1_stale_handles, 7),
+                (self.v1_tree_energy, 12)]
         tot = sum(w for _, w in plan)
         for i in range(n):
             x = self.r.random() * tot
@@ -1003,7 +1058,8 @@ def canon_model(j):
     return {"out": CLASS[j["cls"]], "code": code - U32 if code >= (1 << 31) else code, "rem": int(j["rem"]), "state": j["state"],
             "kv": j["kv"], "logs": j["logs"], "rv": j["rv"], "actions": acts, "ints": j["ints"], "changed": j["changed"],
             "hashes": [(k, bytes.fromhex(d)) for k, d in j["hashes"]], "unspec": j["unspec"], "lower": j["lower"],
-            "nested": [[c_, int(rm), lw] for c_, rm, lw in j["nested"]], "ticks": [int(x) for x in j["ticks"]]}
+            "nested": [[c_, int(rm), lw] for c_, rm, lw in j["nested"]], "ticks": [int(x) for x in j["ticks"]],
+            "tree": [int(x) for x in j.get("tree", [])]}
 
 
 def compare(sc, e, m, r):
@@ -1202,7 +1258,7 @@ def run(ctx):
         "real undefined behaviour is observable only as a panic / failed assertion (catch_unwind); the model proves index and size bounds",
         "secp256k1 and ed25519-zebra are shims: the RESULT of the two signature host functions is outside the claim (argument validation and charging are inside)",
         "sha2/sha3/keccak digests are compared against independent implementations (hashlib, local keccak), not modelled",
-        "energy charged by the state tree for traversals (iterator_next, delete_prefix) is not modelled: lower bound only (C03/C15 own the tree)",
+        "energy charged by the state tree for traversals (iterator_next, delete_prefix) is modelled exactly (HostTreeEnergy.v: canonical radix tree of the live keys + the set of nodes made owned in the current generation); the shape/ownership bookkeeping is tied by the exact remaining-energy comparison only; a run is a lower bound only when the environment forces a lock count to 0 (cfg hook) while an iterator is alive",
         "modules are run WITHOUT metering injection, so consumed energy = initial memory charge + host charges (exactly the part C14 talks about)",
     ]
     # 0. translator ------------------------------------------------------------------------------
@@ -1258,7 +1314,11 @@ def run(ctx):
     ctx.log("generated %d scripts" % len(scripts))
     batches = [scripts[i:i + 1500] for i in range(0, len(scripts), 1500)]
     stats = {"runs": 0, "by_out": {}, "lower_bound_runs": 0, "unspecified_runs": 0, "precondition_fault_runs": 0,
-             "hash_calls_checked": 0, "budgets": {}}
+             "hash_calls_checked": 0, "budgets": {},
+             "tree_energy": {"scripts_with_tree_ticks": 0, "scripts_with_nonzero_tree_energy": 0,
+                             "scripts_with_a_tick_of_more_than_4_steps": 0, "tree_ticks": 0, "steps_per_tick": {},
+                             "exact_runs_of_scripts_with_nonzero_tree_energy": 0, "max_steps_in_one_tick": 0}}
+    tree_scripts = set()
     nontrivial = set()
     nviol = 0
     samples = []
@@ -1283,6 +1343,22 @@ def run(ctx):
             if not todo:
                 break
         ctx.log("batch %d: phase A done" % bi)
+        te = stats["tree_energy"]
+        for sc in batch:
+            tr_ = resA[sc["id"]]["tree"]
+            if tr_:
+                te["scripts_with_tree_ticks"] += 1
+                te["tree_ticks"] += len(tr_)
+                if sum(tr_) > 0:
+                    te["scripts_with_nonzero_tree_energy"] += 1
+                    tree_scripts.add(sc["id"])
+                if max(tr_) > 4 * 40:
+                    te["scripts_with_a_tick_of_more_than_4_steps"] += 1
+                te["max_steps_in_one_tick"] = max(te["max_steps_in_one_tick"], max(tr_) // 40)
+                for x in tr_:
+                    st_ = x // 40
+                    b_ = "0" if st_ == 0 else "1-4" if st_ <= 4 else "5-16" if st_ <= 16 else "17-64" if st_ <= 64 else ">64"
+                    te["steps_per_tick"][b_] = te["steps_per_tick"].get(b_, 0) + 1
         if todo:
             raise RuntimeError("digest resolution did not converge for scripts %s" % [s["id"] for s in todo])
         # budgets
@@ -1333,6 +1409,8 @@ def run(ctx):
                 stats["by_out"][r["out"]] = stats["by_out"].get(r["out"], 0) + 1
                 if m["lower"]:
                     stats["lower_bound_runs"] += 1
+                elif sc["id"] in tree_scripts and not m["unspec"] and not sc["pre_violation"] and r["out"] in ("success", "reject", "trap"):
+                    stats["tree_energy"]["exact_runs_of_scripts_with_nonzero_tree_energy"] += 1
                 if m["unspec"]:
                     stats["unspecified_runs"] += 1
                 if sc["pre_violation"]:
